@@ -126,6 +126,7 @@ def second_round(total, tier, seed):
         for i in range(0, len(labels), size):
             ch = labels[i:i + size]
             payload = {c: {B: bfs_data[(n, c)][B] for B in ch if B in bfs_data[(n, c)]} for c in confs}
+            payload["dist"] = {c: {B: v[0] for B, v in bfs_data[(n, c)].items()} for c in confs}
             tasks.append(("api", n, ch, payload, seed * 100 + i))
     return tasks
 
@@ -158,6 +159,51 @@ def judge_delivery(p, n, conn, B, opt, w, obs, cid, tcost):
         p.counters["optimal %d-%s" % (n, conn)] += 1
 
 
+def refeed(p, n, conn, stab, rnd, dist):
+    """A delivered circuit object, edited by the caller (single-qubit gates in front of or between its gates), is a
+    competitor circuit like any other: compressing it must give the optimum of the state it now prepares."""
+    from qiskit import QuantumCircuit
+    from htstabilizer.stabilizer_circuits import get_preparation_circuit, compress_preparation_circuit
+    from htstabilizer.lc_classes import determine_lc_class
+    from htstabilizer.stabilizer import Stabilizer
+    ok, delivered = call(get_preparation_circuit, stab, conn)
+    if not ok:
+        return
+    pre = QuantumCircuit(n)
+    for q in range(n):
+        if rnd.random() < 0.6:
+            getattr(pre, rnd.choice(["h", "s", "h", "sdg"]))(q)
+    if rnd.random() < 0.7:
+        edited = delivered.compose(pre, front=True)
+    else:
+        edited = delivered.copy()
+        k = rnd.randrange(len(edited.data) + 1)
+        for inst in reversed(pre.data):
+            edited.data.insert(k, inst)
+    g_in = gates_of(edited)
+    try:
+        lab_in = lcorbit.orbit_label(state_of(g_in, n), n)
+    except Exception:           # noqa: BLE001
+        return
+    if connectivity_violations(g_in, oconn.edge_set(n, conn)):
+        return
+    cst, g, lab = delivered_cost(compress_preparation_circuit, edited, conn, n)
+    p.evals += 1
+    p.counters["re-fed delivered circuits (caller-edited) compressed"] += 1
+    if cst is None or lab != lab_in or connectivity_violations(g, oconn.edge_set(n, conn)):
+        return
+    opt = dist.get(lab_in)
+    if opt is not None and cst > opt:
+        ok, cid = call(lambda: determine_lc_class(Stabilizer(ws.strings(state_of(g_in, n), n))).id())
+        cid = cid if ok else "?"
+        p.violate("suboptimal n=%d conn=%s class=%s delivered=%d optimum=%d" % (n, conn, cid, cst, opt),
+                  "a delivered circuit edited by the caller [%s] (two-qubit cost %d) was compressed to %d two-qubit gates, but its state (class %s) "
+                  "can be prepared with %d" % (fmt_gates(g_in)[:300], cost_depth(g_in, n)[0], cst, cid, opt),
+                  {"kind": "walk", "n": n, "conn": conn, "gates": [[nm, list(qs)] for nm, qs in g_in]})
+    elif opt is not None and cst < opt:
+        p.errors.append("oracle inconsistency (refeed): %d < %d" % (cst, opt))
+
+
 def work_api(task, p):
     from htstabilizer.stabilizer_circuits import get_preparation_circuit, compress_preparation_circuit
     from htstabilizer.stabilizer import Stabilizer
@@ -166,6 +212,7 @@ def work_api(task, p):
     _, n, labels, payload, seed = task
     rnd = random.Random("%s-%s" % (n, seed))
     orb = lcorbit.orbit_members(n)
+    alldist = payload.pop("dist", {})
     confs = sorted(payload, key=lambda c: (len(oconn.EDGES[(n, c)]), c))         # sparse first
     for B in labels:
         obs = {c: [] for c in confs}
@@ -183,6 +230,8 @@ def work_api(task, p):
             obs[c].append(("compress(witness)", cst, g, lab))
             cst, g, lab = delivered_cost(get_preparation_circuit, Stabilizer(ws.strings(gens, n)), c, n)
             obs[c].append(("prepare(witness state)", cst, g, lab))
+            if B and rnd.random() < 0.5 and c in alldist:
+                refeed(p, n, c, Stabilizer(ws.strings(gens, n)), rnd, alldist[c])
         for _ in range(2):
             m = ws.member(B, n, rnd, orb[B])
             for c in reversed(confs):                                             # dense first
